@@ -15,6 +15,7 @@ RULE = (
     "exactly policy(k) later, to the current address, none when idle and none after close(); close() fails pending requests "
     "with ClientError and its Deferred fires only when the connection is gone. non-trivial = a drop with unanswered plus "
     "answered/cancelled requests, or >= 2 drops, or >= 2 consecutive connect failures; distinct = distinct trace."
+    ' Retry policies ask for up to 40 s between attempts (lin/exp/const with bases up to 40), so caps and resets of the failure count are visible.'
 )
 ASSUMPTIONS = [
     "writes and connection attempts are expected in the same step as their trigger (the broker client performs them synchronously)",
